@@ -155,20 +155,22 @@ Proof.
   - destruct (caught _ _); [apply IH|reflexivity].
 Qed.
 
-(* the takeMsg loop hands over the whole queue *)
+(* the takeMsg loop hands over the whole queue when everything queued is encodable *)
 Lemma take_all_drain fuel : quiet -> out_ok ->
-  forall acc p, (length (outq (fst p)) < fuel)%nat ->
+  forall acc p, (length (outq (fst p)) < fuel)%nat -> forallb encodable (outq (fst p)) = true ->
   exists s', take_all fuel acc p = ((set_outq [] (fst p), s'), acc ++ outq (fst p), None).
 Proof.
   intros Hq Ho. pose proof Hq as (_ & _ & Hqc).
-  induction fuel as [|f IH]; intros acc p Hlen; [lia|].
+  induction fuel as [|f IH]; intros acc p Hlen Henc; [lia|].
   cbn [Model.take_all]. destruct p as [d s]. cbn [fst snd] in *.
   destruct (outq d) as [|a q] eqn:Eq.
   - exists s. rewrite app_nil_r. destruct d; cbn in *; subst; reflexivity.
-  - pose proof (run_outfilters_none St a (rev cbs) (out_ok_rev St cbs Ho) (set_outq q d, s)) as Hn.
+  - cbn [forallb] in Henc. apply andb_true_iff in Henc as [Ha Hqe].
+    pose proof (run_outfilters_none St a (rev cbs) (out_ok_rev St cbs Ho) (set_outq q d, s)) as Hn.
     pose proof (outfilters_d a (rev cbs) (Forall_rev Hqc) (set_outq q d, s)) as Hd'.
     destruct (run_outfilters a (rev cbs) _) as [[d1 s1] x]. cbn [fst snd] in *. subst x d1.
-    destruct (IH (acc ++ [a]) (set_outq q d, s1)) as [s' Hs']; [cbn in *; lia|].
+    rewrite Ha, orb_true_r.
+    destruct (IH (acc ++ [a]) (set_outq q d, s1)) as [s' Hs']; [cbn in *; lia|exact Hqe|].
     exists s'. rewrite Hs'. cbn. rewrite <- app_assoc. reflexivity.
 Qed.
 
@@ -179,11 +181,11 @@ Lemma send_if_msgs_eff p : quiet -> out_ok -> connected (fst p) = true -> enc_ok
   exists s', send_if_msgs p = ((flushed (fst p), s'), None).
 Proof.
   intros Hq Ho Hc He. unfold Model.send_if_msgs. rewrite Hc.
-  destruct (take_all_drain (S (length (outq (fst p)))) Hq Ho [] p) as [s' Hs']; [lia|].
-  rewrite Hs'. exists s'. cbn [fst snd app].
   unfold enc_ok, enc_qb, qb in He. cbn [fst snd] in He. apply andb_true_iff in He as [H1 H2].
+  destruct (take_all_drain (S (length (outq (fst p)))) Hq Ho [] p) as [s' Hs']; [lia|exact H1|].
+  rewrite Hs'. exists s'. cbn [fst snd app]. rewrite H1.
   destruct (outbuf (fst p)) eqn:Eb; [|discriminate].
-  cbn [set_outq outbuf app]. rewrite Eb. cbn [app]. rewrite H1. reflexivity.
+  unfold flushed. cbn [set_outq outbuf sent]. rewrite Eb. reflexivity.
 Qed.
 
 Lemma flushed_ok d : connected (flushed d) = connected d /\ enc_ok (flushed d) = true.
@@ -212,7 +214,7 @@ Proof.
   destruct rv as [b| |x]; [| discriminate |].
   - cbn [step_ok] in Hs.
     destruct (split_lines (buf ++ b)) as [ls rest0] eqn:Esp. cbn [fst] in Hs.
-    pose proof (feed_lines_none St vt decode dispatch addmsg cbs ls Hd (d1, s1) Hs) as Hn.
+    pose proof (feed_lines_none St vt decode dispatch addmsg cbs ls Hd (d1, s1)) as Hn.
     pose proof (feed_lines_conn ls Hq Hd (d1, s1)) as Hcc.
     pose proof (feed_lines_enc St vt decode dispatch addmsg cbs ls (d1, s1) Hs He1) as He2.
     destruct (feed_lines ls (d1, s1)) as [p2 x2] eqn:Ef. cbn [fst snd] in *. subst x2.
@@ -256,7 +258,7 @@ Lemma drivers_run_inv2 ms rv buf : quiet -> dispatch_ok -> out_ok ->
 Proof.
   intros Hq Hd Ho (Ha & Hcr & Hb & Hc & He) Hcalm Hs. unfold Model.drivers_run. rewrite Ha, Hcr. cbn [andb negb].
   destruct (driver_run_calm rv buf (m_p ms) Hq Hd Ho Hcalm Hs Hc He) as (H1 & H2 & H2e & _).
-  destruct (driver_run_none St vt decode dispatch addmsg cbs rv buf (m_p ms) Hd Ho Hs He) as (_ & H3 & _).
+  destruct (driver_run_none St vt decode dispatch addmsg cbs rv buf (m_p ms) Hd Ho (step_ok_rv vt decode rv buf Hs)) as (_ & H3).
   specialize (H3 Hc). rewrite Hb.
   destruct (driver_run rv buf (m_p ms)) as [b' [p' x]]. cbn [fst snd] in *. subst x b'.
   repeat split; cbn; auto.
